@@ -95,6 +95,7 @@ type FuncSpec struct {
 	Requires []Clause
 	Ensures  []Clause
 	OnSend   []SendClause // step contracts: must hold for every value sent on the named channel
+	OnRecv     []SendClause // assumptions about received values, keyed by element type
 	OnMapStore []SendClause // step contracts at m[key] = val on the named map
 	OnDelete []SendClause // step contracts at delete(m, key) on the named map (Chan holds the map's name or Type.field)
 	Trusts   []Clause // postconditions assumed at call sites but not checked against the body (listed as assumptions)
@@ -537,6 +538,19 @@ func (ss *SpecSet) parseFile(file, pkg, src string) error {
 				return fail(sl.line, "onsend: %v", err)
 			}
 			curF.OnSend = append(curF.OnSend, SendClause{Chan: strings.TrimSuffix(chName, ":"), Clause: Clause{Label: label, Text: strings.TrimSpace(r), E: e, Line: sl.line}})
+		case "onrecv":
+			// onrecv <element type> : <expr over `recvd`> — ASSUMED of every value received from a channel of that element
+			// type in this function (the sender's step contract guarantees it; listed as an assumption)
+			if curF == nil {
+				return fail(sl.line, "onrecv outside func")
+			}
+			tn, r := splitWord(rest)
+			r = strings.TrimPrefix(strings.TrimSpace(r), ":")
+			e, err := ParseExpr(r)
+			if err != nil {
+				return fail(sl.line, "onrecv: %v", err)
+			}
+			curF.OnRecv = append(curF.OnRecv, SendClause{Chan: strings.TrimSuffix(tn, ":"), Clause: Clause{Text: strings.TrimSpace(r), E: e, Line: sl.line}})
 		case "ondelete", "onmapstore":
 			// ondelete <map variable or Type.field> [SEQ|INT] [label]: <expr over `key` and the state just BEFORE the delete>
 			if curF == nil {
